@@ -153,6 +153,102 @@ def split_ite_none(v):
     return None
 
 
+# ------------------------------------------------------------------------------------ the "present" scenario of a reader
+def present_truth(c, robj):
+    """truth of a reader-side condition when the document is well formed: every document field that is consulted is present and
+    truthy, every identifier resolves (from_id(...) is not None).  None: not decided by that."""
+    def is_doc(x):
+        # a field of the object being converted, or of an element of one of its lists
+        while x[0] == "attr":
+            x = x[1]
+            if x == robj or x[0] == "elem":
+                return True
+        return False
+    def is_lookup(x):
+        return x[0] == "call" and x[1][0] == "attr" and x[1][2] in ("from_id", "to_aoef", "to_soundevent")
+    if c == TRUE:
+        return True
+    if c == FALSE:
+        return False
+    if is_doc(c) or is_lookup(c):
+        return True
+    if c[0] == "not":
+        v = present_truth(c[1], robj)
+        return None if v is None else not v
+    if c[0] == "and":
+        vs = [present_truth(x, robj) for x in c[1]]
+        return False if False in vs else (True if all(v is True for v in vs) else None)
+    if c[0] == "or":
+        vs = [present_truth(x, robj) for x in c[1]]
+        return True if True in vs else (False if all(v is False for v in vs) else None)
+    if c[0] == "cmp" and c[1] in ("is", "isnot") and c[3] == NONE and (is_doc(c[2]) or is_lookup(c[2])):
+        return c[1] == "isnot"
+    return None
+
+
+def present_value(t, robj, depth=0):
+    """the value of a reader term in the present scenario: `x or default` is x, `x and y` is y, decided conditionals take their
+    branch, a comprehension whose filter is decided false is EMPTY; anything else stays as written"""
+    if not isinstance(t, tuple) or not t or depth > 30:
+        return t
+    if t[0] == "or" and t[1]:
+        for x in t[1]:
+            v = present_truth(x, robj)
+            if v is True:
+                return present_value(x, robj, depth + 1)
+            if v is None:
+                return t
+        return present_value(t[1][-1], robj, depth + 1)
+    if t[0] == "and" and t[1]:
+        for x in t[1][:-1]:
+            v = present_truth(x, robj)
+            if v is False:
+                return present_value(x, robj, depth + 1)
+            if v is None:
+                return t
+        return present_value(t[1][-1], robj, depth + 1)
+    if t[0] == "ite":
+        v = present_truth(t[1], robj)
+        if v is True:
+            return present_value(t[2], robj, depth + 1)
+        if v is False:
+            return present_value(t[3], robj, depth + 1)
+        return t
+    if t[0] == "comp":
+        gens = []
+        for lid, it, conds in t[3]:
+            it2 = present_value(it, robj, depth + 1)
+            if it2 in (("list", ()), NONE):
+                return ("list", ())
+            keep = [present_truth(c, robj) for c in conds]
+            if False in keep:
+                return ("list", ())
+            gens.append((lid, it2, conds))
+        return (t[0], t[1], present_value(t[2], robj, depth + 1), tuple(gens))
+    if t[0] == "call" and len(t) == 4:
+        return ("call", present_value(t[1], robj, depth + 1), tuple(present_value(a, robj, depth + 1) for a in t[2]),
+                tuple((k, present_value(v, robj, depth + 1)) for k, v in t[3]))
+    if t[0] == "dict":
+        return ("dict", tuple((present_value(k, robj, depth + 1) if isinstance(k, tuple) and k and isinstance(k[0], str) else k,
+                               present_value(v, robj, depth + 1)) for k, v in t[1]))
+    if t[0] in ("tuple", "list", "kv", "attr", "sub", "star"):
+        return tuple(_pv_children(x, robj, depth + 1) for x in t)
+    return t
+
+
+def _pv_children(x, robj, depth):
+    if not isinstance(x, tuple) or not x:
+        return x
+    if isinstance(x[0], str):
+        return present_value(x, robj, depth)
+    return tuple(_pv_children(y, robj, depth) for y in x)
+
+
+def elem_reads(t):
+    """the fields of loop elements that a term reads: {(loop id, field)}"""
+    return {(x[1][1], x[2]) for x in walk(t) if x[0] == "attr" and x[1][0] == "elem"}
+
+
 # ------------------------------------------------------------------------------------ type inference on terms
 
 class Types:
@@ -518,6 +614,60 @@ class C01:
                         f"{D.name}.{f} is written through self.{'/'.join(sorted(wr))}.to_aoef but read back through "
                         f"self.{'/'.join(sorted(rd - wr))}.from_id: that adapter's store does not hold these identifiers, the lookup gives None "
                         f"and the reference is silently dropped", rret.lineno, witness={"written_by": sorted(wr), "looked_up_in": sorted(rd)})
+        # R01.12 the reader in the present scenario: with every consulted document field present and every identifier resolvable, each
+        # field's value is still computed from its document field (not a fresh default, not None, not an emptied list) and none of
+        # the reader's own rejections is live
+        if only is None:
+            for f in Df:
+                if f not in rk or not R.get(f):
+                    continue
+                rt_ = rk[f][2] if rk[f][0] == "from_super" else rk[f]
+                pv = present_value(rt_, robj)
+                uses = [g_ for g_ in R[f] if any(x == ("attr", robj, g_) for x in walk(pv))]
+                lost_ = sorted(f_ for _, f_ in elem_reads(rt_) - elem_reads(pv))
+                if lost_ and pv != NONE and pv != ("list", ()) and uses:
+                    ctx.bad("R01.12", rowner.module.relpath, f"{rowner.name}.{rmeth}", f"{D.name}({f}=[... {lost_[0]} ...])",
+                            f"reading {D.name}.{f}: with every part of an element present, its `{', '.join(lost_)}` is not used any more "
+                            f"(`{show(rt_)[:100]}` becomes `{show(pv)[:80]}`): the stored part is dropped or replaced by a default", rret.lineno)
+                    continue
+                if pv == NONE or pv == ("list", ()) or not uses:
+                    ctx.bad("R01.12", rowner.module.relpath, f"{rowner.name}.{rmeth}", f"{D.name}({f}={show(rt_)[:60]})",
+                            f"with {O.name}.{'/'.join(R[f])} present in the document (and every identifier resolvable) the reader gives "
+                            f"{D.name}.{f} = {show(pv)[:60]}: the stored value is replaced by a default, dropped or filtered away "
+                            f"(`{show(rt_)[:100]}`)", rret.lineno, witness={"field": f, "document_fields": R[f], "value_when_present": show(pv)[:80]})
+                else:
+                    ctx.ok("R01.12", rsite, f"{D.name}.{f} comes from {O.name}.{'/'.join(uses)} when it is present")
+            # ... and the writer likewise: with every field of the object present, each document field is still computed from it
+            for g in wk:
+                if not W.get(g) or g not in Of:
+                    continue
+                wv_ = wk[g][2] if wk[g][0] == "from_super" else wk[g]
+                if wv_[0] == "from_super_default":
+                    continue
+                mc_ = self.ao.method_call(wv_)
+                if mc_ and mc_[1] == "values":
+                    continue  # store-mediated: the list is what the conversions before it registered (R01.4)
+                pvw = present_value(wv_, wobj)
+                usesw = [f_ for f_ in W[g] if any(x == ("attr", wobj, f_) for x in walk(pvw))]
+                lostw = sorted(f_ for _, f_ in elem_reads(wv_) - elem_reads(pvw))
+                if lostw and pvw != NONE and pvw != ("list", ()) and usesw:
+                    ctx.bad("R01.12", wowner.module.relpath, f"{wowner.name}.{wmeth}", f"{O.name}({g}=[... {lostw[0]} ...])",
+                            f"writing {O.name}.{g}: with every part of an element set, its `{', '.join(lostw)}` is not written any more "
+                            f"(`{show(wv_)[:100]}` becomes `{show(pvw)[:80]}`)", wret.lineno)
+                    continue
+                if pvw == NONE or pvw == ("list", ()) or not usesw:
+                    ctx.bad("R01.12", wowner.module.relpath, f"{wowner.name}.{wmeth}", f"{O.name}({g}={show(wv_)[:60]})",
+                            f"with {D.name}.{'/'.join(W[g])} set, the writer gives {O.name}.{g} = {show(pvw)[:60]}: the value is not "
+                            f"written (`{show(wv_)[:100]}`)", wret.lineno, witness={"document_field": g, "fields": W[g], "value_when_present": show(pvw)[:80]})
+                else:
+                    ctx.ok("R01.12", wsite, f"{O.name}.{g} comes from {D.name}.{'/'.join(usesw)} when it is set")
+            for r_ in rs.raises:
+                if r_.in_handler:
+                    continue
+                if present_truth(r_.live, robj) is True:
+                    ctx.bad("R01.12", rowner.module.relpath, f"{rowner.name}.{rmeth}", f"raise under `{show(r_.live)[:70]}`",
+                            f"the reader rejects a well-formed document entry: `{show(r_.live)[:100]}` holds when the referenced object IS "
+                            f"found", r_.lineno)
         # R01.8 a field copied as it is must have a document field of the same declared type (no narrowing codec)
         if only is None or True:
             for g, v in wk.items():
@@ -881,13 +1031,14 @@ class C01:
             attr = mc[0]
             arg = t[2][0] if t[2] else None
             fieldname = None
+            it = None
             if arg is not None and arg[0] == "elem":
                 it = s.loops[arg[1]].iter
                 reads = attr_reads(it, robj)
                 if len(reads) == 1:
                     fieldname = reads[0]
             out.append({"attr": attr, "field": fieldname, "site": f"{owner.module.relpath}:{e.lineno} {owner.name}.to_soundevent",
-                        "owner": owner, "line": e.lineno})
+                        "owner": owner, "line": e.lineno, "iter": it, "robj": robj, "live": e.live})
         return out
 
     def check_registration(self, col: Collection):
@@ -913,6 +1064,11 @@ class C01:
                         f"self.{r['attr']}.to_soundevent(<{r['field']}>)",
                         f"list {col.O.name}.{r['field']} ({shape_str(fi.shape)}) is registered with {w.cls.name} "
                         f"whose document class is {leaf.O.name}", r["line"])
+            elif r.get("iter") is not None and (present_value(r["iter"], r["robj"]) in (("list", ()), NONE)
+                                                or not any(x == ("attr", r["robj"], r["field"]) for x in walk(present_value(r["iter"], r["robj"])))):
+                ctx.bad("R01.5", r["owner"].module.relpath, f"{r['owner'].name}.to_soundevent", f"for ... in {show(r['iter'])[:60]}",
+                        f"the registration loop over {col.O.name}.{r['field']} iterates `{show(r['iter'])[:80]}`, which is empty exactly when the "
+                        f"list is present: nothing is registered and every reference to these objects resolves to nothing", r["line"])
             else:
                 ctx.ok("R01.5", r["site"], f"{col.O.name}.{r['field']} registered with self.{r['attr']}")
         # every top-level list the writer produces must be registered (else objects are unresolvable on load)
@@ -1201,11 +1357,87 @@ def check_term_codec(ctx: Ctx):
                 "term_from_key must rebuild a Term whose label is the stored key", k2.node.lineno)
 
 
+def check_file_guards(ctx: Ctx):
+    """R01.13: a file that was just written by save is accepted by load -- none of load's own rejections is live for an existing
+    *.json file of the current version whose collection type is the requested one (or none requested) -- and save creates a
+    missing parent directory, and only a missing one."""
+    from sa.peval import peval, truth
+    s = ctx.summ.of_func(AOEF_PKG, "load")
+    file = s.module.relpath
+    site = f"{file}:{s.node.lineno} load"
+    T = ("param", "type")
+
+    def decide(t_, type_given):
+        asg = {}
+        for x in walk(t_):
+            if x[0] == "call" and x[1][0] == "attr" and x[1][2] in ("exists", "is_file") and not x[2]:
+                asg[x] = True
+            elif x[0] == "call" and x[1][0] == "global" and x[1][1].endswith(":is_json"):
+                asg[x] = True
+            elif x[0] == "call" and x[1] in (("ext", "os.path.exists"), ("ext", "os.path.isfile")):
+                asg[x] = True
+            elif x[0] == "cmp" and x[1] in ("is", "isnot") and x[2] == T and x[3] == NONE:
+                asg[x] = (not type_given) == (x[1] == "is")
+            elif x[0] == "cmp" and x[1] in ("eq", "ne") and T in (x[2], x[3]):
+                asg[x] = x[1] == "eq"  # the requested type is the stored one
+            elif x[0] == "cmp" and x[1] in ("in", "notin") and x[2] == T and x[3][0] in ("tuple", "list", "set") and NONE in x[3][1] and len(x[3][1]) == 2:
+                asg[x] = x[1] == "in"  # `type in (None, stored type)`: no type requested, or the stored one
+            elif x[0] == "cmp" and x[1] in ("eq", "ne") and any(y[0] == "global" and y[1].endswith(":AOEF_VERSION") for y in (x[2], x[3])):
+                asg[x] = x[1] == "eq"
+            elif x[0] == "caught":
+                asg[x] = False
+        return truth(peval(t_, asg))
+    okl = True
+    for tg in (False, True):
+        for r in s.raises:
+            if r.in_handler:
+                continue
+            v = decide(r.live, tg)
+            if v is True:
+                ctx.bad("R01.13", file, "load", f"raise under `{show(r.live)[-70:]}`",
+                        f"io.aoef.load rejects an existing *.json file of the current version{' whose collection type is the requested one' if tg else ''}: "
+                        f"`{show(r.live)[-100:]}` holds for it -- a file that save has just written cannot be loaded", r.lineno)
+                okl = False
+            elif v is None:
+                ctx.undec("R01.13", site, f"cannot decide the rejection `{show(r.live)[-80:]}` for a file that was just saved")
+                okl = False
+    conv = [e for e in s.calls if e.term[1] == ("global", f"{AOEF_PKG}:to_soundevent", "func")]
+    if conv and okl:
+        if all(decide(e.live, tg) is True for e in conv for tg in (False, True)):
+            ctx.ok("R01.13", site, "an existing *.json file of the current version reaches to_soundevent; no own rejection is live for it")
+        else:
+            ctx.bad("R01.13", file, "load", "to_soundevent(...) not reached", "io.aoef.load does not reach the conversion for a file that was just saved", conv[0].lineno)
+    s = ctx.summ.of_func(AOEF_PKG, "save")
+    site = f"{file}:{s.node.lineno} save"
+    mk = [e for e in s.calls if e.term[1][0] == "attr" and e.term[1][2] == "mkdir" or e.term[1] == ("ext", "os.makedirs")]
+    for e in mk:
+        kw = callkw(e.term)
+        if kw.get("exist_ok") == ("const", True):
+            ctx.ok("R01.13", site, "parent directory created with exist_ok=True")
+            continue
+        def dec2(exists):
+            asg = {x: exists for x in walk(e.live) if (x[0] == "call" and x[1][0] == "attr" and x[1][2] in ("exists", "is_dir") and not x[2])
+                   or (x[0] == "call" and x[1] in (("ext", "os.path.exists"), ("ext", "os.path.isdir")))}
+            return truth(peval(e.live, asg))
+        if dec2(True) is False and dec2(False) is True:
+            ctx.ok("R01.13", site, "the parent directory is created exactly when it is missing")
+        elif dec2(True) is None or dec2(False) is None:
+            ctx.undec("R01.13", site, f"cannot decide when the parent directory is created: {show(e.live)[:80]}")
+        else:
+            ctx.bad("R01.13", file, "save", f"mkdir under `{show(e.live)[:60]}`",
+                    f"io.aoef.save creates the parent directory under `{show(e.live)[:80]}`: "
+                    + ("mkdir without exist_ok fails (FileExistsError) for every existing directory" if dec2(True) is True else "a missing directory is not created and the write fails"),
+                    e.lineno)
+    if not mk:
+        ctx.note("io.aoef.save does not create a missing parent directory")
+
+
 def run(ctx: Ctx):
     ctx.rule("R01.7", "reader registration discipline; term codec (label); save/load codec options", 27)
     ctx.rule("R01.8", "a field stored as it is has a document field of the same declared type", 60)
     ctx.rule("R01.1", "field carry: every declared field written, supplied on read; every document field consumed", 200)
     ctx.rule("R01.2", "writer and reader field maps are mutually inverse", 80)
+    ctx.rule("R01.12", "readers in the present scenario: stored values are used, resolvable references are kept, nothing well-formed is rejected", 100)
     ctx.rule("R01.11", "writers convert parts with to_aoef, readers with to_soundevent / from_id", 40)
     ctx.rule("R01.10", "identifiers are looked up in the store of the adapter that issued them", 15)
     ctx.rule("R01.3", "every elision by the writer is restored by the reader; no scalar truthiness elision", 30)
@@ -1236,4 +1468,6 @@ def run(ctx: Ctx):
     from . import c18
     with ctx.delegated("C18/"):
         c18.run_for_roundtrip(ctx)
+    ctx.rule("R01.13", "a file that save has just written is accepted by load; the parent directory is created exactly when missing", 2)
+    check_file_guards(ctx)
     return EXPLANATION, ASSUMPTIONS
